@@ -235,7 +235,7 @@ Proof. exact world_names_refused_l. Qed.
 Print Assumptions property_names_refused.
 
 Theorem delattr_refused : forall W c kw h h' o name,
-  run as_written W (QConstruct c kw) h = (h', RVal o) -> setattr_allowed name = false ->
+  private_attrs h -> run as_written W (QConstruct c kw) h = (h', RVal o) -> setattr_allowed name = false ->
   py_delattr o name h' = (h', RExc "AttributeError").
 Proof. exact delattr_constructed_l. Qed.
 Print Assumptions delattr_refused.
@@ -276,9 +276,15 @@ Print Assumptions values_kept_in_every_history.
 
 (* ---- the theorem is sensitive to the copies: it FAILS without them ---- *)
 Theorem frame_refuted_extensions_no_copy :
-  exists h', fst (run (with_ext NoCopy) tiny_world (QClean (KExt true) (VR 1)) heap_ext) = h' /\ ~ unchanged heap_ext h'.
+  exists h', fst (run (variant_ext NoCopy) tiny_world (QClean (KExt true) (VR 1)) heap_ext) = h' /\ ~ unchanged heap_ext h'.
 Proof. exact ext_nocopy_refuted_l. Qed.
 Print Assumptions frame_refuted_extensions_no_copy.
+
+(* ... and the custom-type constructor (stix2/custom.py) then writes into the caller's dict *)
+Theorem frame_refuted_custom_type_no_copy :
+  exists h', fst (run (variant_ext NoCopy) custom_world (QConstruct (u "custom.T") (VR 1)) heap_custom) = h' /\ ~ unchanged heap_custom h'.
+Proof. exact custom_nocopy_refuted_l. Qed.
+Print Assumptions frame_refuted_custom_type_no_copy.
 
 Theorem frame_refuted_parse_observable_no_copy :
   exists h', fst (run (with_pobs NoCopy) tiny_world (QParseObs (VR 0) (VA ANone) (Some true) true) heap_obs) = h' /\ ~ unchanged heap_obs h'.
@@ -299,6 +305,13 @@ Print Assumptions frame_refuted_factory_shallow_copy.
 Example deepcopy_runs :
   exists h' c, deepcopy 5 (VR 1) heap_ext = (h', RVal c) /\ c = VR 3.
 Proof. eexists; eexists; split; vm_compute; reflexivity. Qed.
+
+(* as written: the custom type's constructor puts its extension into the copied dict (location 3
+   here), the caller's `extensions` dict (location 0) stays empty *)
+Example custom_type_constructor_runs :
+  exists h' o, run as_written custom_world (QConstruct (u "custom.T") (VR 1)) heap_custom = (h', RVal (VR o)) /\
+               get h' 0 = Some (NDict []) /\ mapping_get h' (VR 3) (u "extension-definition--1") <> None.
+Proof. exact custom_runs_l. Qed.
 
 Example extensions_clean_runs :
   exists h' c, run as_written tiny_world (QClean (KExt true) (VR 1)) heap_ext = (h', RVal c) /\ length h' = 6.
